@@ -14,6 +14,23 @@ Proof.
     split; intros; try discriminate; try lia; auto.
 Qed.
 
+Theorem threshold_from_iter_sound M k h n :
+  threshold_from_iter M k h n = true -> 1 <= k /\ k <= n /\ (M = 0 \/ n <= M).
+Proof.
+  unfold threshold_from_iter. destruct ((0 <? M) && (M <? N.max k h)); [discriminate|].
+  apply threshold_range.
+Qed.
+
+(* with an honest lower bound (hint <= number of items) from_iter decides exactly the range *)
+Theorem threshold_from_iter_exact M k h n : h <= n ->
+  (threshold_from_iter M k h n = true <-> 1 <= k /\ k <= n /\ (M = 0 \/ n <= M)).
+Proof.
+  intros Hh. split; [apply threshold_from_iter_sound|]. intros R.
+  unfold threshold_from_iter.
+  destruct (N.ltb_spec 0 M), (N.ltb_spec M (N.max k h)); simpl; try (apply threshold_range; exact R).
+  exfalso. lia.
+Qed.
+
 Theorem abs_lock_range n : abs_lock_from_consensus n = true <-> 1 <= n /\ n <= 2147483647.
 Proof.
   unfold abs_lock_from_consensus, MIN_ABSOLUTE_LOCKTIME, MAX_ABSOLUTE_LOCKTIME.
